@@ -602,10 +602,10 @@ def run(rep, tier_, rng):
         precs[c["prec"]] = precs.get(c["prec"], 0) + 1
     run_and_report(rep, insts, calls, tag="C12_%s" % tier_, params=params, budget=max(30, budget),
                    rule="each evaluation = one call f(args) of the current /repo code at a sampled precision p; functions uniformly "
-                        "from the 43-entry registry, regime by weight (gen/tiny/huge/kpi2 = p'-bit neighbours of k*pi/2 with k<2^64/"
+                        "from the %d-entry registry (%d function/regime cells), regime by weight (gen/tiny/huge/kpi2 = p'-bit neighbours of k*pi/2 with k<2^64/"
                         "near1 = 1+-2^-k/branch-cut sides/outside the real domain/complex), inputs exact dyadics incl. mantissas "
                         "longer than p; non-trivial = the lemma needed a real interval/vm_compute proof (not err=0 against a folded "
-                        "constant); distinct = distinct lemma statements",
+                        "constant); distinct = distinct lemma statements" % (len(FUNCS), sum(len(v) for v in R.values())),
                    assumptions=ASSUMPTIONS,
                    extra_cov={"functions_in_registry": len(FUNCS), "functions_hit": len({c["fn"] for c in calls.values()}),
                               "fn_regime_cells_hit": len(regimes), "precisions": {str(k): v for k, v in sorted(precs.items())},
